@@ -121,8 +121,10 @@ func (s *rrSegFetcher) doCheck() {
 	defer s.doCheck()
 
 	// queue outgoing interest for the next segment
+	// the name must not share its backing array with fetchName: the Interest is
+	// encoded later, after the next doCheck has appended the next segment number
 	args := ExpressRArgs{
-		Name: append(state.fetchName,
+		Name: append(state.fetchName[:len(state.fetchName):len(state.fetchName)],
 			enc.NewSegmentComponent(seg),
 		),
 		Config: &ndn.InterestConfig{
